@@ -13,4 +13,7 @@ TRUST = ["pyvc engine (AST interpreter of the real sources, VC generation); z3/c
 
 def run(ses):
     records.check_unit(ses, "leader", ["table", "frame"])
+    from props import analyses
+
+    analyses.bounded_tables(ses, ('leader',), 12 if ses.tier == "quick" else 300)
     ses.trust(*TRUST)
